@@ -42,6 +42,8 @@ structure Cfg where
   idle : Bool          -- idleTimeout > 0
   unix : Bool          -- RunUnix (socket file) vs RunTcp
   h : Nat → Nat        -- the (pure) method the connections call
+  T : Nat := 0         -- idleTimeout (time units)
+  G : Nat := 0         -- start-up grace = max(idleTimeout, 60 s)
 
 structure LState where
   file : Option Nat := none           -- mode of the socket file, `none` = no file
@@ -59,6 +61,10 @@ structure LState where
   served : Nat → List Nat := fun _ => []
   outbox : Nat → List Nat := fun _ => []
   sent : Nat → List Nat := fun _ => []    -- history: everything the client of c wrote
+  now : Nat := 0                      -- the clock
+  deadline : Nat := 0                 -- when the timer in `timer` is due (`time.AfterFunc(d, …)` at `now + d`)
+  zeroSince : Nat := 0                -- history: when `active` last dropped to 0 (0 = never had a connection)
+  lastCount : Nat := 0                -- history: when a connection was last counted
 
 inductive Act
   | bind (stale : Option Nat)
@@ -72,13 +78,15 @@ inductive Act
   | acceptErr (fault : Bool)
   | leave
   | ret
+  | tick (t : Nat)     -- time passes
+  | expire (g : Nat)   -- the armed timer is due and its callback runs at once (fire + timerRun with no delay)
   deriving Repr
 
 def upd {β : Type} (f : Nat → β) (c : Nat) (v : β) : Nat → β := fun i => if i = c then v else f i
 
 /-- `arm(d)`: `disarm()` then `timer = time.AfterFunc(d, …)`. -/
-def arm (s : LState) : LState :=
-  { s with timer := some (s.nextTimer, true), nextTimer := s.nextTimer + 1 }
+def arm (s : LState) (d : Nat) : LState :=
+  { s with timer := some (s.nextTimer, true), nextTimer := s.nextTimer + 1, deadline := s.now + d }
 
 /-- `disarm()`: `timer.Stop(); timer = nil`. -/
 def disarm (s : LState) : LState := { s with timer := none }
@@ -87,7 +95,7 @@ def step (C : Cfg) (s : LState) : Act → Option LState
   | .bind _stale =>
     if s.main = .init then
       let s1 := { s with main := .accepting, file := if C.unix then some ownerOnly else none }
-      some (if C.idle then arm s1 else s1)
+      some (if C.idle then arm s1 C.G else s1)
     else none
   | .accept c =>
     if s.main = .accepting ∧ s.lnClosed = false ∧ s.stage c = .absent then
@@ -96,7 +104,8 @@ def step (C : Cfg) (s : LState) : Act → Option LState
   | .count =>
     match s.main with
     | .gotConn c =>
-      some (disarm { s with main := .accepting, active := s.active + 1, stage := upd s.stage c .serving })
+      some (disarm { s with main := .accepting, active := s.active + 1, stage := upd s.stage c .serving,
+                            lastCount := s.now })
     | _ => none
   | .send c x =>
     if s.stage c = .accepted ∨ s.stage c = .serving then
@@ -112,8 +121,9 @@ def step (C : Cfg) (s : LState) : Act → Option LState
     else none
   | .connDone c =>
     if s.stage c = .serving then
-      let s1 := { s with stage := upd s.stage c .done, active := s.active - 1 }
-      some (if s1.active = 0 ∧ C.idle ∧ s1.shutdown = false then arm s1 else s1)
+      let s1 := { s with stage := upd s.stage c .done, active := s.active - 1,
+                         zeroSince := if s.active - 1 = 0 then s.now else s.zeroSince }
+      some (if s1.active = 0 ∧ C.idle ∧ s1.shutdown = false then arm s1 C.T else s1)
     else none
   | .fire g =>
     if s.timer = some (g, true) then
@@ -135,9 +145,25 @@ def step (C : Cfg) (s : LState) : Act → Option LState
       some { s with main := .returned, lnClosed := true, file := none }
     else none
 
+  | .tick t => some { s with now := max s.now t }
+  | .expire g =>
+    if s.timer = some (g, true) ∧ s.deadline ≤ s.now then
+      let s1 := { s with timer := some (g, false) }
+      some (if s.active = 0 then { s1 with shutdown := true, lnClosed := true } else s1)
+    else none
+
 def init : LState := {}
 
 def sys (C : Cfg) : TS.Sys LState Act := { init := init, step := step C }
+
+/-- The timed system: a timer expires exactly when it is due and its callback runs without delay
+(`expire`); the untimed `fire` / `timerRun` pair, which lets a callback linger, is switched off. -/
+def tsys (C : Cfg) : TS.Sys LState Act :=
+  { init := init,
+    step := fun s a => match a with
+      | .fire _ => none
+      | .timerRun _ => none
+      | _ => step C s a }
 
 /-- Number of connections currently being served (counted and not yet finished). -/
 def openCount (s : LState) : Nat := s.ids.countP (fun c => s.stage c = .serving)
